@@ -1072,7 +1072,9 @@ fn runtime() -> tokio::runtime::Runtime {
 fn run_stored(c: &[u64]) -> Option<(Vec<u64>, Vec<u64>)> {
     let (h, evs) = decode_case(c)?;
     let rt = runtime();
-    rt.block_on(async {
+    // unconstrained: tokio's cooperative budget would make channel polls return Pending spuriously
+    // in a task that never yields, i.e. delay events of long histories
+    rt.block_on(tokio::task::unconstrained(async {
         let mut s = Sys::new(&h)?;
         let mut trace = vec![1u64];
         let mut events = Vec::new();
@@ -1080,7 +1082,7 @@ fn run_stored(c: &[u64]) -> Option<(Vec<u64>, Vec<u64>)> {
             events.extend(s.apply(e, &mut trace).await);
         }
         Some((encode_case(&h, &events), trace))
-    })
+    }))
 }
 
 struct Gen {
@@ -1239,7 +1241,9 @@ fn generate(seed: u64, tier_long: bool) -> Option<(Vec<u64>, Vec<u64>)> {
     let h = Header { k, mgr, known };
     let mut g = Gen { rng, n, k, next_q: 0, next_inbound: INBOUND_BASE, answered: Vec::new(), dial_answered: Vec::new() };
     let rt = runtime();
-    rt.block_on(async {
+    // unconstrained: tokio's cooperative budget would make channel polls return Pending spuriously
+    // in a task that never yields, i.e. delay events of long histories
+    rt.block_on(tokio::task::unconstrained(async {
         let mut s = Sys::new(&h)?;
         let mut trace = vec![1u64];
         let mut events: Vec<Vec<u64>> = Vec::new();
@@ -1398,7 +1402,7 @@ fn generate(seed: u64, tier_long: bool) -> Option<(Vec<u64>, Vec<u64>)> {
             }
         }
         Some((encode_case(&h, &events), trace))
-    })
+    }))
 }
 
 /// Tag of the query an in-flight future works for (from the snapshot), if it is still live.
@@ -1482,6 +1486,67 @@ fn witnesses() -> Vec<(&'static str, Header, Vec<Ev>)> {
     ]
 }
 
+
+// ------------------------------------------------------------------ end-to-end stream (real nodes, loopback TCP)
+
+/// Three put_record_to_peers operations on a real `Litep2p` node over loopback TCP: the target has
+/// only an address no enabled transport can dial (F-C16a), the target refuses the connection, the
+/// target is a healthy second node. Each must produce a terminal event with its query id before
+/// the deadline. Returns the names of the scenarios that did not.
+fn end_to_end() -> Vec<&'static str> {
+    use futures::StreamExt;
+    use litep2p::{
+        config::ConfigBuilder as NodeConfig, crypto::ed25519::Keypair, transport::tcp::config::Config as TcpConfig,
+        Litep2p,
+    };
+    let rt = tokio::runtime::Builder::new_multi_thread().worker_threads(2).enable_all().build().unwrap();
+    rt.block_on(async {
+        let node = || {
+            let (kad, handle) = ConfigBuilder::new().build();
+            let cfg = NodeConfig::new()
+                .with_keypair(Keypair::generate())
+                .with_tcp(TcpConfig { listen_addresses: vec!["/ip4/127.0.0.1/tcp/0".parse().unwrap()], ..Default::default() })
+                .with_libp2p_kademlia(kad)
+                .build();
+            (Litep2p::new(cfg).unwrap(), handle)
+        };
+        let (mut a, mut ha) = node();
+        let (mut c, _hc) = node();
+        let c_peer = *c.local_peer_id();
+        let c_addr: Vec<Multiaddr> = c.listen_addresses().cloned().collect();
+        tokio::spawn(async move { while a.next_event().await.is_some() {} });
+        tokio::spawn(async move { while c.next_event().await.is_some() {} });
+        let ghost = PeerId::random();
+        let refuser = PeerId::random();
+        ha.add_known_peer(ghost, vec!["/ip4/127.0.0.1/udp/9/quic-v1".parse().unwrap()]).await;
+        ha.add_known_peer(refuser, vec!["/ip4/127.0.0.1/tcp/1".parse().unwrap()]).await;
+        ha.add_known_peer(c_peer, c_addr).await;
+        let mut failed = Vec::new();
+        for (name, target, secs) in [("undialable", ghost, 8u64), ("refused", refuser, 25), ("healthy", c_peer, 25)] {
+            let record = Record { key: RecordKey::from(vec![1u8, 6, 1]), value: vec![1], publisher: None, expires: None };
+            let q = ha.put_record_to_peers(record, vec![target], false, Quorum::One).await;
+            let deadline = tokio::time::sleep(Duration::from_secs(secs));
+            tokio::pin!(deadline);
+            let mut done = false;
+            loop {
+                tokio::select! {
+                    _ = &mut deadline => break,
+                    ev = ha.next() => match ev {
+                        Some(KademliaEvent::QueryFailed { query_id }) if query_id == q => { done = true; break }
+                        Some(KademliaEvent::PutRecordSuccess { query_id, .. }) if query_id == q => { done = true; break }
+                        Some(_) => {}
+                        None => break,
+                    }
+                }
+            }
+            if !done {
+                failed.push(name);
+            }
+        }
+        failed
+    })
+}
+
 fn run_one(f: impl FnOnce() -> Option<(Vec<u64>, Vec<u64>)>, fallback_case: &[u64], out: &mut Outputs) {
     match catch_unwind(AssertUnwindSafe(f)) {
         Ok(Some((case, trace))) => out.emit(&case, &trace),
@@ -1511,6 +1576,17 @@ pub fn main(args: &Args) {
     }
     if args.str("replay").is_some() {
         return;
+    }
+    // end-to-end: a missing terminal event is reported as the history "put_record_to_peers, then
+    // nothing owed and nothing reported"
+    match catch_unwind(end_to_end) {
+        Ok(failed) if failed.is_empty() => eprintln!("c16: end-to-end stream ok (3 operations over loopback TCP)"),
+        other => {
+            eprintln!("c16: end-to-end stream FAILED: {:?}", other.ok());
+            let h = Header { k: 20, mgr: vec![(0, 0)], known: vec![0] };
+            let e = Ev::PutToPeers { q: 0, qtag: 1, qn: 1, peers: vec![0] };
+            out.emit(&encode_case(&h, &[e.encode()]), &[1, 1, 0, 0, 0, 0, 0, 0]);
+        }
     }
     let n = args.u64("cases", 100);
     let seed = args.u64("seed", 1);
